@@ -4,13 +4,15 @@ import props.c01 as c01
 from common import tokens_close
 
 ID = "C02"
-TARGETS = ["Proofs.C02", "Proofs.DataRefine"]
+TARGETS = ["Proofs.C02", "Proofs.DataRefine", "Proofs.DataFields"]
 GEN_PREFIXES = []
 THEOREMS = {"Proofs.C02": ["VerifModel.C02." + t for t in [
     "C02_index_correct", "C02_cut_is_lookup", "C02_indicesOf", "C02_index_is_lookup", "C02_perm_lookup"]],
     "Proofs.DataRefine": ["VerifModel.DataRefine." + t for t in [
         "getScores_refines", "specScores_invariant", "C02_order_irrelevant", "reindex_equiv",
-        "C02_reordered_inputs", "C02_permuted_inputs"]]}
+        "C02_reordered_inputs", "C02_permuted_inputs"]],
+    "Proofs.DataFields": ["VerifModel.DataFields." + t for t in [
+        "getScoresF_refines", "commonSet_perm", "specDims_perm", "specScores_perm", "C02_any_permutation"]]}
 TRUSTED_BASE = c01.TRUSTED_BASE + [
     "text path: verif.input.Text on files written by harness/datagen.write_text (random column and row order)"]
 ASSUMPTIONS = ["NoDup: no coordinate value is repeated inside one input (with repeats the first occurrence is used, "
@@ -18,12 +20,21 @@ ASSUMPTIONS = ["NoDup: no coordinate value is repeated inside one input (with re
                "corollaries C02_reordered_inputs / reindex_equiv need NoDupCoords)",
                "MetaAgree: location metadata agree between files (they are taken from the first file)",
                "getScores_refines / C02_order_irrelevant: Data.init succeeds, arrays have the declared shapes (wfInput); "
-               "C02_permuted_inputs: the first input stays first and stores the observations"]
+               "C02_permuted_inputs: the first input stays first and stores the observations; C02_any_permutation (any "
+               "order of the scored inputs): every input and the climatology store their observations (otherwise which "
+               "input lends its observations depends on the order) and the first inputs of the two orders list the same "
+               "location records (MetaAgree for the first file)",
+               "field kinds and -obs / -fcst FIELD: as C01"]
 RULE = ("data.req on datasets whose inputs list dimension entries in random, mutually different orders (a quarter of them "
-        "with -d/-tod/-l/… subsets); "
-        "data.perm: each dataset is re-submitted with every input's time/lead/location entries shuffled and the inputs "
-        "rotated (implementation-only metamorphic relation); data.text: the same dataset through real text files with "
-        "shuffled rows and columns; non-trivial = a request returns a finite value")
+        "with -d/-tod/-l/… subsets, a fifth with -obs FIELD / -fcst FIELD) and store the PIT, CDF columns (thresholds in "
+        "different orders / different sets per input), quantile columns, ensemble members (different sizes) and an "
+        "other-score field (datagen.gen_dataset, see C01); "
+        "data.perm: each dataset is re-submitted with every input's time/lead/location entries shuffled, the order of "
+        "its stored fields (= the columns of its 4-D arrays) shuffled and the inputs "
+        "rotated (implementation-only metamorphic relation; no rotation when the files give a station different "
+        "metadata and a lat/lon/elevation range is used); data.text: the same dataset through real text files with "
+        "shuffled rows and columns and every field kind as a column (obs fcst pit p<t> q<q> e<k> other); "
+        "non-trivial = a request returns a finite value")
 EXHAUSTIVE = {"quick": False, "thorough": False}
 LEVEL_TEXT = ("Lean theorems: the index used for a common coordinate value is the first position holding that value in the "
               "input's own coordinate list; cutting is a lookup at those indices; index access equals lookup by value in "
@@ -34,7 +45,12 @@ LEVEL_TEXT = ("Lean theorems: the index used for a common coordinate value is th
               "(specScores_invariant), hence C02_order_irrelevant: datasets with equivalent inputs get the same verified "
               "dimensions and the same answer to every request; concretely, listing any input's times / lead times / "
               "locations in another order with the data moved along (C02_reordered_inputs, NoDup) and giving the scored "
-              "inputs other than the first in another order (C02_permuted_inputs) changes nothing. Tied to the real code "
+              "inputs other than the first in another order (C02_permuted_inputs) — or, when every input stores its observations "
+              "and the first files agree on the location records, in ANY other order (C02_any_permutation, "
+              "Proofs/DataFields.lean) — changes nothing. Stored CDF / quantile columns, ensemble members, PIT and other "
+              "scores are named fields of the model, so the theorems cover them (getScoresF_refines for -obs / -fcst "
+              "FIELD); that the code finds them through the inputs' 4-D arrays by coordinate is the correspondence "
+              "streams' part. Tied to the real code "
               "by correspondence incl. a permutation layer and a text-file path; the Lean specification is evaluated "
               "next to the Python oracle on every data op.")
 TECHNIQUE = c01.TECHNIQUE
@@ -47,6 +63,8 @@ def gen_ops(tier, rng):
         if k % 4 == 3:
             # with user subsets (-d, -tod, -l, …): matching by coordinate must survive the second index pass
             ds = dg.add_subset_options(ds, rng)
+        if k % 5 == 1:
+            ds = dg.add_field_options(ds, rng)      # -obs FIELD / -fcst FIELD
         dims = dg.oracle_dims(ds)
         if dims is None or not all(dims):
             continue
@@ -54,9 +72,10 @@ def gen_ops(tier, rng):
         yield "data.req", dg.enc_op(ds, reqs)
         if not dg.has_repeats(ds):
             yield "data.perm", dg.enc_op(ds, reqs[:12], head="dataperm %d" % rng.randrange(10 ** 6))
-            if k % 3 == 0 and not ds.cfg.get("clim") and all("pit" not in I["fields"] or True for I in ds.inputs):
-                ds2 = dg.DS([dict(I, fields={n: a for n, a in I["fields"].items() if n in ("obs", "fcst")}) for I in ds.inputs], {})
-                reqs2 = [r for r in reqs if "pit" not in r[0]][:10]
+            if k % 3 == 0 and not ds.cfg.get("clim"):
+                # every field kind through a real text file: obs fcst pit p<t> q<q> e<k> and other-score columns
+                ds2 = dg.DS(ds.inputs, {})
+                reqs2 = [r for r in dg.all_requests(ds2, dims, rng, 25)][:10]
                 if all("fcst" in I["fields"] for I in ds2.inputs):
                     yield "data.text", dg.enc_op(ds2, reqs2, head="datatxt %d" % rng.randrange(10 ** 6))
 
